@@ -125,15 +125,17 @@ def make_vlt_aperture(
         cs = [c1, c4, c3, c2]
 
         def segment(n1, c1, n2, c2, grid):
-            if grid.is_separated:
-                x, y = grid.separated_coords
+            cartesian_grid = grid.as_('cartesian')
+
+            if cartesian_grid.is_separated:
+                x, y = cartesian_grid.separated_coords
                 f = (np.dot(n1, np.array([x[np.newaxis, :], y[:, np.newaxis]], dtype = object)) > c1) * 1.0
                 f *= (np.dot(n2, np.array([x[np.newaxis, :], y[:, np.newaxis]], dtype = object)) < c2) * 1.0
                 intersection = np.array([c1, c2]).dot(np.linalg.inv(np.array([n1, n2])))
                 ni = np.array([-intersection[1], -intersection[0]])
                 f *= (np.dot(ni, np.array([x[np.newaxis, :], y[:, np.newaxis]], dtype = object)) < 0) * 1.0
             else:
-                x, y = grid.coords
+                x, y = cartesian_grid.coords
                 f = (np.dot(n1, np.array([x, y])) > c1) * 1.0
                 f *= (np.dot(n2, np.array([x, y])) < c2) * 1.0
                 intersection = np.array([c1, c2]).dot(np.linalg.inv(np.array([n1, n2])))
